@@ -1,3 +1,125 @@
 import Driver.Loop
-/- placeholder: the C18 view has no executable model yet -/
-def main : IO Unit := Drv.runLoop fun _ => .atom "bad-op"
+import Driver.Util
+import PMV.Model.Cache
+import PMV.Gen.EventPaths
+/- line-protocol handler for the C18 view: one history per request.
+
+   request : (c18 (init shapeless varr mrep hasDerivs ro) step …)
+   step    : (q antimask|corners|slicer|wod|count|unshrink) | (q shrink touch fill)
+           | (m NAME IDX (varr mrep hasDerivs ro) ((query …) …))      a path of the REGENERATED table
+           | (x (event …) (varr mrep hasDerivs ro) ((query …) …))      explicit events (a mutator that raised mid-path)
+   answer  : one item per step: (keysOn wodShares ok keysOff) where keysOn/keysOff = cache keys after the step
+             with the cache enabled / disabled, wodShares = T|F|- (the cached wod shares the parent's ndarray),
+             ok = T|F (every cached entry equals its recomputation) or - once an `x` step has been executed. -/
+namespace Drv.C18
+open PMV PMV.Cache Drv
+
+def parseMRep : Sx → Option MRep
+  | .atom "sF" => some .sFalse | .atom "sT" => some .sTrue | .atom "arr" => some .arr | _ => none
+
+def parseFacts : Sx → Option Facts
+  | .list [v, m, d, r] => do
+    let v ← v.toBool?; let m ← parseMRep m; let d ← d.toBool?; let r ← r.toBool?
+    some ⟨v, m, d, r⟩
+  | _ => none
+
+def parseQuery : List Sx → Option Query
+  | [.atom "antimask"] => some .antimask
+  | [.atom "corners"] => some .corners
+  | [.atom "slicer"] => some .slicer
+  | [.atom "wod"] => some .wod
+  | [.atom "count"] => some .countMasked
+  | [.atom "unshrink"] => some .unshrinkSelf
+  | [.atom "shrink", t, f] => do some (.shrinkSelf (← t.toBool?) (← f.toBool?))
+  | _ => none
+
+def parseFills : Sx → Option (List (List Query))
+  | .list ls => ls.mapM fun l => match l with
+    | .list qs => qs.mapM fun q => match q with
+      | .atom a => parseQuery [.atom a]
+      | .list l => parseQuery l
+    | _ => none
+  | _ => none
+
+def parseAttr : String → Option Attr
+  | "values" => some .values | "mask" => some .mask | "derivs" => some .derivs | "units" => some .units
+  | "readonly" => some .readonly | _ => none
+def parseMode : String → Option Mode
+  | "rebind" => some .rebind | "aug" => some .aug | "store" => some .store | "setTrue" => some .setTrue
+  | "same" => some .same | _ => none
+def parseKey : String → Option Key
+  | "antimask" => some .antimask | "corners" => some .corners | "slicer" => some .slicer | "wod" => some .wod
+  | "unshrunk" => some .unshrunk | "shrunk" => some .shrunk | _ => none
+
+def parseEvent : Sx → Option Event
+  | .atom "requireWritable" => some .requireWritable
+  | .atom "raise" => some .raise_
+  | .atom "ret" => some .ret
+  | .atom "excAt" => some .excAt
+  | .atom "cacheClear" => some .cacheClear
+  | .atom "cacheFreeze" => some .cacheFreeze
+  | .atom "mayFill" => some .mayFill
+  | .list [.atom "write", .atom a, .atom m] => do some (.write (← parseAttr a) (← parseMode m))
+  | .list [.atom "cacheDel", .atom k] => do some (.cacheDel (← parseKey k))
+  | .list [.atom "assumeVarr", b] => do some (.assumeVarr (← b.toBool?))
+  | .list [.atom "call", .atom n] => some (.call n)
+  | _ => none
+
+inductive DStep
+  | th (s : Step)                                          -- a step the theorems speak about
+  | explicit (es : List Event) (post : Facts) (fills : List (List Query))
+
+def parseStep : Sx → Option DStep
+  | .list (.atom "q" :: rest) => (parseQuery rest).map fun q => .th (.query q)
+  | .list [.atom "m", .atom name, idx, post, fills] => do
+    some (.th (.mutate name (← idx.toNat?) (← parseFacts post) (← parseFills fills)))
+  | .list [.atom "x", .list es, post, fills] => do
+    some (.explicit (← es.mapM parseEvent) (← parseFacts post) (← parseFills fills))
+  | _ => none
+
+def keysSx (k : Cache) : Sx :=
+  .list ((if k.anti.isSome then [Sx.atom "antimask"] else []) ++ (if k.corn.isSome then [Sx.atom "corners"] else []) ++
+         (if k.slic.isSome then [Sx.atom "slicer"] else []) ++ (if k.wod.isSome then [Sx.atom "wod"] else []) ++
+         (if k.unshrunk then [Sx.atom "unshrunk"] else []) ++ (if k.shrunk then [Sx.atom "shrunk"] else []))
+
+def dstep (en : Bool) (d : DStep) (s : St) : St :=
+  match d with
+  | .th st => (step PMV.Gen.EventPaths.table en st s).2
+  | .explicit es post fills => execPath en post es fills s
+
+/-- does the named path exist in the regenerated table? -/
+def known : DStep → Bool
+  | .th (.mutate n i _ _) => (Table.path PMV.Gen.EventPaths.table n i).isSome
+  | _ => true
+
+def observe (sOn sOff : St) (exact : Bool) : Sx :=
+  let shares : Sx := match sOn.cache.wod with
+    | some e => if sOn.core.varr then Sx.ofBool e.vshared else .atom "-"
+    | none => .atom "-"
+  .list [keysSx sOn.cache, shares, if exact then Sx.ofBool (cacheOKb sOn) else .atom "-", keysSx sOff.cache]
+
+def runAll : List DStep → St → St → Bool → List Sx
+  | [], _, _, _ => []
+  | d :: ds, sOn, sOff, exact =>
+    if known d then
+      let sOn' := dstep true d sOn
+      let sOff' := dstep false d sOff
+      let exact' := exact && (match d with | .th _ => true | .explicit .. => false)
+      observe sOn' sOff' exact' :: runAll ds sOn' sOff' exact'
+    else .atom "no-such-path" :: runAll ds sOn sOff exact
+
+def handle : List Sx → Sx
+  | .list [.atom "init", sl, v, m, d, r] :: steps =>
+    match sl.toBool?, parseFacts (.list [v, m, d, r]), steps.mapM parseStep with
+    | some sl, some f, some ds =>
+      let s0 : St := ⟨⟨10, 0, 1, 2, f.varr, f.mrep, f.ro, f.hasDerivs, sl⟩, Cache.empty⟩
+      .list (runAll ds s0 s0 true)
+    | _, _, _ => err "c18-request"
+  | _ => err "c18-request"
+
+end Drv.C18
+
+def main : IO Unit := Drv.runLoop fun x =>
+  match x with
+  | .list (.atom "c18" :: rest) => Drv.C18.handle rest
+  | _ => .atom "bad-op"
